@@ -299,12 +299,14 @@ example : Spec.believed
 /-- **Every header name carries exactly what the specification says** (`Spec.expectedValues`): the value computed by
 heimdall for `X-Forwarded-Proto` and `-Host` when it continues that family; else what the pipeline produced under that name
 (in any casing); else nothing for the seven forwarding headers and for hop-by-hop headers (the standard ones and those
-the client lists in `Connection`); else the client's values in their order.  Partial: for names under which the
-pipeline produced one value at most, and which are not the forwarding header heimdall continues (`Spec.deviations`). -/
+the client lists in `Connection`); else the client's values in their order — each value as the upstream reads it
+(`Spec.asRead`: Go writes a value without the blanks and tabs around it, so a value of blanks only is read as the empty
+value).  Partial: for names under which the pipeline produced one value at most, and which are not the forwarding header
+heimdall continues (`Spec.deviations`). -/
 theorem c15_headers_partial (c : Case) (tls : Bool) (dial : Bytes) (up : UpReq)
     (h : forward c = .forwarded tls dial up) (k : Bytes) (vs : List Bytes)
     (he : Spec.expectedValues c k = some vs) (hr : Spec.repeatedPipeName c k = false)
-    (hpc : Spec.pipeContinued c k = false) : values up.headers k = vs := by
+    (hpc : Spec.pipeContinued c k = false) : values up.headers k = Spec.asRead vs := by
   obtain ⟨path, raw, t, _, _, _, _, _, _, hup⟩ := forward_forwarded c tls dial up h
   unfold Spec.expectedValues at he
   by_cases hg : (Spec.transportOwned k || decide (k = Spec.continuedName c) || decide (k = hTe) ||
@@ -333,7 +335,7 @@ theorem c15_headers_partial (c : Case) (tls : Bool) (dial : Bytes) (up : UpReq)
     have hmv := model_values c k hH hC h1 h2 h3 hcn
     rw [hup]
     show values (wireHeaders _ (rewriteHeaders (inHeaders c) c.pipe c.req.peer c.req.host c.rule.host
-      (listenerProto c.req.tls)).2) k = vs
+      (listenerProto c.req.tls)).2) k = Spec.asRead vs
     -- the forwarding headers heimdall continues
     by_cases hxp : (Spec.xFamily c && decide (k = hXFProto)) = true
     · simp only [hxp, if_true, Option.some.injEq] at he
@@ -345,7 +347,8 @@ theorem c15_headers_partial (c : Case) (tls : Bool) (dial : Bytes) (up : UpReq)
         simp [this]
       rw [values_wireHeaders _ _ _ hto (by subst hk; decide) (Or.inl (by subst hk; decide)), hmv]
       simp only [hne, if_false, hxp, if_true]
-      exact he
+      rw [he]
+      simp
     · simp only [hxp, Bool.false_eq_true, if_false] at he
       by_cases hxh : (Spec.xFamily c && decide (k = hXFHost)) = true
       · simp only [hxh, if_true, Option.some.injEq] at he
@@ -353,7 +356,7 @@ theorem c15_headers_partial (c : Case) (tls : Bool) (dial : Bytes) (up : UpReq)
           simp only [Bool.and_eq_true, decide_eq_true_eq] at hxh; exact hxh.2
         rw [values_wireHeaders _ _ _ hto (by subst hk; decide) (Or.inl (by subst hk; decide)), hmv]
         simp only [hxh, if_true]
-        exact he
+        rw [he]
       · simp only [hxh, Bool.false_eq_true, if_false] at he
         simp only [hxh, hxp, Bool.false_eq_true, if_false] at hmv
         have hck : (decide (k = hCookie) && decide (c.pipe.cookies ≠ [])) = false := by
@@ -378,8 +381,11 @@ theorem c15_headers_partial (c : Case) (tls : Bool) (dial : Bytes) (up : UpReq)
         by_cases hua : k = hUserAgent
         · subst hua
           simp only [if_true, Option.some.injEq] at he
-          rw [values_wireHeaders_ua, hmv]
-          exact he
+          rw [values_wireHeaders_ua, hmv, ← he]
+          cases (if Spec.pipeValues c hUserAgent ≠ [] then Spec.pipeValues c hUserAgent
+              else Spec.endToEnd c hUserAgent) with
+          | nil => rfl
+          | cons v rest => by_cases hv : v = [] <;> simp [hv, Spec.asRead]
         · simp only [hua, if_false] at he
           by_cases hae : k = hAcceptEncoding
           · subst hae
@@ -398,19 +404,20 @@ theorem c15_headers_partial (c : Case) (tls : Bool) (dial : Bytes) (up : UpReq)
                   unfold ProxyFwd.get
                   rw [hmv]
                   simpa using hv
-                rw [values_wireHeaders _ _ _ hto hua (Or.inr hgne), hmv]
-                exact he
+                rw [values_wireHeaders _ _ _ hto hua (Or.inr hgne), hmv, he]
           · simp only [hae, if_false] at he
             rw [values_wireHeaders _ _ _ hto hua (Or.inl hae), hmv]
             by_cases hpv : Spec.pipeValues c k = []
             · simp only [hpv, ne_eq, not_true_eq_false, if_false, Option.some.injEq] at he ⊢
-              exact he
+              rw [he]
             · simp only [hpv, ne_eq, not_false_eq_true, if_true, Option.some.injEq] at he ⊢
-              exact he
+              rw [he]
 
 /-- **Pipeline headers win.**  If the pipeline produced one header whose canonical name is `k` — in whatever casing,
 and whatever the client sent under that name in whatever casing and however often, whether or not the client lists
-the name in `Connection` — the upstream reads exactly one line for `k`, carrying the pipeline's value.  (Not for
+the name in `Connection` — the upstream reads exactly one line for `k`, carrying the pipeline's value (without
+surrounding blanks).  `v` is arbitrary: when the template of a `header` finalizer rendered the **empty** string (or
+blanks only) the upstream reads one line with an empty value and none of the client's.  (Not for
 `Host`, see `c15_forward_to_host`; `User-Agent` / `Accept-Encoding` see below; not for framing headers, for the
 forwarding header heimdall continues, for `Te`/`Connection`/`Upgrade`, and for `Cookie` when the pipeline produced
 cookies, which are appended.) -/
@@ -419,7 +426,8 @@ theorem c15_pipeline_header_wins (c : Case) (tls : Bool) (dial : Bytes) (up : Up
     (h1 : Spec.transportOwned k = false) (h2 : Spec.continued c k = false)
     (h3 : k ≠ hCookie ∨ c.pipe.cookies = [])
     (h4 : k ≠ hTe ∧ k ≠ hConnection ∧ k ≠ hUpgrade ∧ k ≠ hUserAgent ∧ k ≠ hAcceptEncoding) :
-    values up.headers k = [v] := by
+    values up.headers k = [trimOWS v] := by
+  show values up.headers k = Spec.asRead [v]
   apply c15_headers_partial c tls dial up h k [v]
   · unfold Spec.expectedValues Spec.continuedName
     unfold Spec.continued at h2
@@ -448,11 +456,21 @@ example : Spec.pipeValues
       b!"127.0.0.1", false⟩⟩
     b!"X-User" = [b!"alice"] := by decide
 
+set_option maxRecDepth 100000 in
+/-- a value of blanks only (what `{{ .Subject.Attributes.role }}` renders for the attribute `" "`) is read as the empty
+value, and replaces the client's lines all the same; blanks around a value are not read -/
+example : (match forward
+    ⟨[], ⟨.off, b!"up", none⟩, ⟨[(b!"x-user-ROLE", b!" \t"), (b!"X-Id", b!" 42 ")], []⟩,
+     ⟨b!"GET", b!"/", b!"h", [(b!"X-User-Role", b!"admin"), (b!"x-id", b!"0")], [], b!"127.0.0.1", false⟩⟩ with
+    | .forwarded _ _ up => (values up.headers b!"X-User-Role", values up.headers b!"X-Id")
+    | _ => ([], [])) = ([[]], [b!"42"]) := by decide
+
 /-- **The pipeline also wins for `User-Agent` and `Accept-Encoding`**, the two names Go's HTTP client writes itself: a
 non-empty value the pipeline produced is the only one the upstream reads. -/
 theorem c15_pipeline_wins_library_headers (c : Case) (tls : Bool) (dial : Bytes) (up : UpReq)
     (h : forward c = .forwarded tls dial up) (k v : Bytes) (hk : k = hUserAgent ∨ k = hAcceptEncoding)
-    (hv : Spec.pipeValues c k = [v]) (hne : v ≠ []) : values up.headers k = [v] := by
+    (hv : Spec.pipeValues c k = [v]) (hne : v ≠ []) : values up.headers k = [trimOWS v] := by
+  show values up.headers k = Spec.asRead [v]
   apply c15_headers_partial c tls dial up h k [v]
   · unfold Spec.expectedValues Spec.continuedName
     rcases hk with e | e <;> subst e
@@ -488,6 +506,89 @@ theorem c15_pipeline_wins_library_headers (c : Case) (tls : Bool) (dial : Bytes)
     have b3 : (hAcceptEncoding = hXFProto) = False := by decide
     have b4 : (hAcceptEncoding = hXFHost) = False := by decide
     rcases hk with e | e <;> subst e <;> cases Spec.xFamily c <;> simp [a1, a2, a3, a4, b1, b2, b3, b4]
+
+/-- **Nothing the client sent survives under a name the pipeline produced** — the property's "every header produced by
+the pipeline replaces any same-named header sent by the client" as a safety statement.  If the pipeline produced a
+header under the canonical name `k`, with whatever value (the **empty** string a template renders for a subject
+without the attribute and values of blanks only included), in whatever casing and however often, then every value the
+upstream reads under `k` is one of the values the pipeline produced (as read: without surrounding blanks) — or, for
+`Accept-Encoding`, the `gzip` line Go's HTTP client adds itself.  No hypothesis on the client's header lines: same
+name in any casing, any number of lines, listed in `Connection` or not.  (`Spec.pipelineOwned` leaves out `Host` and the
+framing headers, the forwarding header heimdall continues, `Te`/`Connection`/`Upgrade`, and `Cookie` when the pipeline
+produced cookies too.) -/
+theorem c15_client_value_replaced (c : Case) (tls : Bool) (dial : Bytes) (up : UpReq)
+    (h : forward c = .forwarded tls dial up) (k : Bytes) (hk : Spec.pipelineOwned c k = true) :
+    Spec.clientReplaced c up k = true := by
+  obtain ⟨path, raw, t, _, _, _, _, _, _, hup⟩ := forward_forwarded c tls dial up h
+  unfold Spec.pipelineOwned at hk
+  simp only [Bool.and_eq_true, Bool.not_eq_true', decide_eq_true_eq, decide_eq_false_iff_not, ne_eq,
+    Bool.and_eq_false_iff, Bool.not_eq_eq_eq_not, Bool.not_true] at hk
+  obtain ⟨⟨⟨⟨⟨⟨hpv, hto⟩, hco⟩, h1⟩, h2⟩, h3⟩, hck⟩ := hk
+  have hH : k ≠ hHost := by
+    intro e; subst e; revert hto; decide
+  have hC : k ≠ hCookie ∨ c.pipe.cookies = [] := by
+    rcases hck with e | e
+    · exact Or.inl e
+    · exact Or.inr (by simpa using e)
+  have hcn : k ≠ Spec.continuedName c := by
+    unfold Spec.continued at hco
+    unfold Spec.continuedName
+    cases hX : Spec.xFamily c
+    · simpa [hX] using hco
+    · simp only [hX, if_true, Bool.or_eq_false_iff, decide_eq_false_iff_not] at hco
+      simpa using hco.1.1
+  have hxh : (Spec.xFamily c && decide (k = hXFHost)) = false := by
+    unfold Spec.continued at hco
+    cases hX : Spec.xFamily c
+    · rfl
+    · simp only [hX, if_true, Bool.or_eq_false_iff, decide_eq_false_iff_not] at hco
+      simp [hco.2]
+  have hxp : (Spec.xFamily c && decide (k = hXFProto)) = false := by
+    unfold Spec.continued at hco
+    cases hX : Spec.xFamily c
+    · rfl
+    · simp only [hX, if_true, Bool.or_eq_false_iff, decide_eq_false_iff_not] at hco
+      simp [hco.1.2]
+  have hmv := model_values c k hH hC h1 h2 h3 hcn
+  simp only [hxh, hxp, Bool.false_eq_true, if_false] at hmv
+  cases hp : Spec.pipeValues c k with
+  | nil => exact absurd hp hpv
+  | cons v0 rest =>
+    rw [hp] at hmv
+    simp only [List.head?_cons, oneOr] at hmv
+    have hin : (Spec.asRead (v0 :: rest)).contains (trimOWS v0) = true := by
+      simp [Spec.asRead]
+    unfold Spec.clientReplaced
+    rw [hup, hp]
+    show ((values (wireHeaders _ (rewriteHeaders (inHeaders c) c.pipe c.req.peer c.req.host c.rule.host
+      (listenerProto c.req.tls)).2) k).all _) = true
+    by_cases hua : k = hUserAgent
+    · subst hua
+      rw [values_wireHeaders_ua, hmv]
+      by_cases hv : v0 = []
+      · simp [hv]
+      · simp only [hv, if_false, List.all_cons, List.all_nil, Bool.and_true, hin, Bool.true_or]
+    · rw [values_wireHeaders_gzip _ _ _ hto hua, hmv, List.all_append, Bool.and_eq_true]
+      refine ⟨?_, ?_⟩
+      · show ([trimOWS v0].all _) = true
+        simp only [List.all_cons, List.all_nil, Bool.and_true, hin, Bool.true_or]
+      · rw [List.all_eq_true]
+        intro w hw
+        obtain ⟨e1, e2⟩ := values_gzipLine_mem _ _ _ _ hw
+        simp [e1, e2]
+
+example : Spec.pipelineOwned
+    ⟨[], ⟨.off, b!"up", none⟩, ⟨[(b!"x-user-ROLE", [])], []⟩,
+     ⟨b!"GET", b!"/", b!"h", [(b!"X-User-Role", b!"admin"), (b!"x-user-role", b!"root")], [], b!"127.0.0.1", false⟩⟩
+    b!"X-User-Role" = true := by decide
+
+set_option maxRecDepth 100000 in
+/-- a header the pipeline rendered empty replaces the client's lines: the upstream reads the name with an empty value -/
+example : (match forward
+    ⟨[], ⟨.off, b!"up", none⟩, ⟨[(b!"x-user-ROLE", [])], []⟩,
+     ⟨b!"GET", b!"/", b!"h", [(b!"X-User-Role", b!"admin"), (b!"x-user-role", b!"root")], [], b!"127.0.0.1", false⟩⟩ with
+    | .forwarded _ _ up => values up.headers b!"X-User-Role"
+    | _ => [b!"?"]) = [[]] := by decide
 
 /-- **`X-Forwarded-Method`, `-Uri`, `-Path` cannot be passed through** — from no peer, trusted or not, in no casing:
 the upstream reads these names only with a value the pipeline produced. -/
@@ -551,7 +652,7 @@ theorem c15_other_headers (c : Case) (tls : Bool) (dial : Bytes) (up : UpReq)
     (h2 : untrustedHeaders.contains k = false) (h3 : Spec.pipeValues c k = [])
     (h4 : k ≠ hCookie ∨ c.pipe.cookies = [])
     (h5 : k ≠ hTe ∧ k ≠ hConnection ∧ k ≠ hUpgrade ∧ k ≠ hUserAgent ∧ k ≠ hAcceptEncoding) :
-    values up.headers k = if Spec.hopByHop c k then [] else values (Spec.clientHeaders c) k := by
+    values up.headers k = Spec.asRead (if Spec.hopByHop c k then [] else values (Spec.clientHeaders c) k) := by
   apply c15_headers_partial c tls dial up h
   · unfold Spec.expectedValues Spec.continuedName Spec.endToEnd
     have hn := (not_congr (untrusted_iff k)).mp (by simpa using h2)
@@ -621,8 +722,10 @@ theorem c15_forwarded_extended_partial (c : Case) (tls : Bool) (dial : Bytes) (u
     unfold Spec.priorElems Spec.priorFor
     by_cases hp : commaJoin (Spec.believed c hXFFor) = []
     · simp only [hp, if_true, List.nil_append, decide_eq_true_eq]
+      rw [listElems_trimOWS]
       exact listElems_single _ hpeer.1 hpeer.2.2
     · simp only [hp, if_false, decide_eq_true_eq]
+      rw [listElems_trimOWS]
       exact listElems_extend _ _ hpeer.1 hpeer.2.2
   · have hX' : Spec.xFamily c = false := by simpa using hX
     simp only [hX', Bool.false_eq_true, if_false]
@@ -662,11 +765,11 @@ theorem c15_forwarded_extended_partial (c : Case) (tls : Bool) (dial : Bytes) (u
       simpa using hmem
     unfold Spec.priorElems Spec.priorForwarded
     by_cases hp : commaJoin (Spec.believed c hForwarded) = []
-    · simp only [hp, if_true]
-      rw [listElems_single _ he.1 he.2]
+    · simp only [hp, if_true, Spec.asRead, List.map_cons, List.map_nil]
+      rw [listElems_trimOWS, listElems_single _ he.1 he.2]
       simpa using hfor
-    · simp only [hp, if_false]
-      rw [listElems_extend _ _ he.1 he.2]
+    · simp only [hp, if_false, Spec.asRead, List.map_cons, List.map_nil]
+      rw [listElems_trimOWS, listElems_extend _ _ he.1 he.2]
       simpa using hfor
 
 set_option maxRecDepth 100000 in
@@ -739,7 +842,7 @@ theorem c15_violated_clause_is_deviation (c : Case) (tls : Bool) (dial : Bytes) 
     cl.name ∈ Spec.deviations ∧
       ¬ (Spec.pipeSingleValued c = true ∧ Spec.pipeAvoidsContinued c = true ∧ Spec.addrSafe c = true) := by
   simp only [Spec.clauses, List.mem_cons, List.mem_nil_iff, or_false] at hcl
-  rcases hcl with e | e | e | e | e | e | e | e | e | e | e | e | e <;> subst e <;> dsimp only at happ hnot
+  rcases hcl with e | e | e | e | e | e | e | e | e | e | e | e | e | e <;> subst e <;> dsimp only at happ hnot
   · exfalso
     have := (c15_forward_to_host c tls dial up hf).2
     simp [this] at hnot
@@ -792,6 +895,14 @@ theorem c15_violated_clause_is_deviation (c : Case) (tls : Bool) (dial : Bytes) 
           | none => rfl
           | some vs => simpa using c15_headers_partial c tls dial up hf k vs he hr' hp'
     rw [hall] at hnot; exact Bool.noConfusion hnot
+  · exfalso
+    have hall : ((Spec.namesOf c up).all fun k => !Spec.pipelineOwned c k || Spec.clientReplaced c up k) = true := by
+      rw [List.all_eq_true]
+      intro k _
+      by_cases ho : Spec.pipelineOwned c k = true
+      · simp [ho, c15_client_value_replaced c tls dial up hf k ho]
+      · simp [ho]
+    rw [hall] at hnot; exact Bool.noConfusion hnot
   · refine ⟨by simp [Spec.deviations], fun ⟨h1, _, _⟩ => ?_⟩
     have hall : ((Spec.namesOf c up).all fun k =>
         !Spec.repeatedPipeName c k || Spec.pipeContinued c k || Spec.headerOK c up k) = true := by
@@ -801,7 +912,7 @@ theorem c15_violated_clause_is_deviation (c : Case) (tls : Bool) (dial : Bytes) 
     rw [hall] at hnot; exact Bool.noConfusion hnot
   · refine ⟨by simp [Spec.deviations], fun ⟨_, h2, _⟩ => ?_⟩
     have hall : ((Spec.namesOf c up).all fun k =>
-        !Spec.pipeContinued c k || decide (values up.headers k = Spec.pipeValues c k)) = true := by
+        !Spec.pipeContinued c k || decide (values up.headers k = Spec.asRead (Spec.pipeValues c k))) = true := by
       rw [List.all_eq_true]
       intro k _
       simp [avoids_continued c h2 k]
